@@ -138,7 +138,9 @@ func (c *clipperBase) recursiveCheckOwners(outrec *OutRec, polypath *PolyPathBas
 func (c *clipperBase) checkSplitOwner(outrec *OutRec, splits []int) bool {
 	for _, i := range splits {
 		split := c.outrecList[i]
-		if split.pts == nil && len(split.splits) > 0 {
+		if split.pts == nil && len(split.splits) > 0 && split.recursiveSplit != outrec {
+			// records emptied by cleanCollinear can list each other in their splits
+			split.recursiveSplit = outrec
 			if c.checkSplitOwner(outrec, split.splits) {
 				return true
 			}
